@@ -654,6 +654,8 @@ struct Sup {
     /// valid files with the digest the worker reported for them before it saw anything hostile
     canaries: Vec<(&'static str, Vec<u8>, String)>,
     calls_since_canary: u64,
+    confirmed_hangs: u32,
+    unconfirmed_timeouts: u32,
 }
 
 impl Sup {
@@ -743,11 +745,18 @@ impl Sup {
                     json!({"stderr": resp["stderr"]}),
                 );
             }
+            "timeout" if self.confirmed_hangs >= 3 => {
+                // three hangs of this run are confirmed and reported already: a tree that hangs on one input usually hangs
+                // on hundreds of its neighbours, and confirming each would take hours. Counted, not re-run.
+                self.rep.count("timeouts.after-three-confirmed-hangs");
+                self.unconfirmed_timeouts += 1;
+            }
             "timeout" => {
                 // wall-clock is never a verdict on its own: re-run the case alone with three times the budget
                 self.rep.count("timeouts.first");
                 let again = self.w.call(&format!("D {} {}", decoder, canon::hex(input)), Duration::from_secs(3 * self.timeout_s));
                 if again["o"] == "timeout" {
+                    self.confirmed_hangs += 1;
                     self.rep.violation(
                         &format!("C13:hang:{}", decoder),
                         &format!("{} decoder made no progress for {} s (and again for {} s when re-run alone) on {} ({} bytes)", decoder, self.timeout_s, 3 * self.timeout_s, what, input.len()),
@@ -792,7 +801,7 @@ pub fn main(a: &Args) {
         None => std::env::current_exe().unwrap(),
     };
     let profile = a.str("profile-name", "release");
-    let mut sup = Sup { w: Worker::spawn(&exe), rep: Report::new("C13"), profile, timeout_s: a.u64("timeout", 30), canaries: vec![], calls_since_canary: 0 };
+    let mut sup = Sup { w: Worker::spawn(&exe), rep: Report::new("C13"), profile, timeout_s: a.u64("timeout", 30), canaries: vec![], calls_since_canary: 0, confirmed_hangs: 0, unconfirmed_timeouts: 0 };
     let to = Duration::from_secs(a.u64("timeout", 30));
     const KINDS: &[&str] = &["bin-none", "bin-none", "bin-lz4", "bin-zstd", "xml", "xml", "attr"];
     match mode.as_str() {
@@ -808,6 +817,10 @@ pub fn main(a: &Args) {
             // structure-aware hostile files produced by lib/monitors/c13.py
             let f = BufReader::new(std::fs::File::open(a.str("in", "/dev/stdin")).expect("corpus"));
             for (n, line) in f.lines().enumerate() {
+                if sup.unconfirmed_timeouts >= 5 {
+                    sup.rep.notes.push("stopped early: three hangs confirmed and reported, five more inputs timed out".into());
+                    break;
+                }
                 let line = line.unwrap();
                 if line.trim().is_empty() || (n as u64) % nshards != shard {
                     continue;
@@ -831,6 +844,10 @@ pub fn main(a: &Args) {
             let count = a.u64("count", 1000);
             let mut i = shard;
             while i < count {
+                if sup.unconfirmed_timeouts >= 5 {
+                    sup.rep.notes.push("stopped early: three hangs confirmed and reported, five more inputs timed out".into());
+                    break;
+                }
                 let mut r = Rng::derive(seed, "c13-mut", i);
                 let kind = *r.pick(KINDS);
                 let dec = decoder_of(kind);
@@ -956,6 +973,10 @@ pub fn main(a: &Args) {
             }
             let mut i = shard;
             while i < files {
+                if sup.unconfirmed_timeouts >= 5 {
+                    sup.rep.notes.push("stopped early: three hangs confirmed and reported, five more inputs timed out".into());
+                    break;
+                }
                 let kind = KINDS[(i as usize) % KINDS.len()];
                 let dec = decoder_of(kind);
                 if let Some(d) = valid_file(seed, 1000 + i, kind, 4) {
@@ -985,6 +1006,10 @@ pub fn main(a: &Args) {
             let mut i = shard;
             const SK: &[&str] = &["bin-none", "bin-lz4", "bin-zstd", "xml", "attr"];
             while i < files {
+                if sup.unconfirmed_timeouts >= 5 {
+                    sup.rep.notes.push("stopped early: three hangs confirmed and reported, five more inputs timed out".into());
+                    break;
+                }
                 let kind = SK[(i as usize) % SK.len()];
                 let index = 1000 + i;
                 let full = match valid_file_for_sink(seed, index, kind) {
